@@ -89,12 +89,46 @@ def main():
             return mod.gen_for_variant(rng, args.tier, args.variant)
         return mod.gen(rng, args.tier)
 
-    def exec_one(cfg, ops, variant=None):
+    def exec_one(cfg, ops, variant=None, resume=None):
         e = dict(env)
         e['variant'] = variant
+        if resume is not None:
+            e['resume'] = resume
         if variant:
             mod.VARIANTS[variant]()
         return mod.execute(cfg, ops, e)
+
+    def chain(cfg, ops, variant=None):
+        """one run = one child forked from the world snapshot; when the run schedules a process
+        restart (seam S8) the remaining ops execute in a NEW child of the same snapshot and only
+        the text in `continuation` crosses the boundary"""
+        import hashlib
+        res = proc.fork_call(lambda: exec_one(cfg, ops, variant), soft=soft)
+        if 'ok' not in res:
+            return res
+        acc = res['ok']
+        hops = 0
+        while acc.get('continuation') is not None and hops < 6:
+            cont = acc.pop('continuation')
+            hops += 1
+            nxt = proc.fork_call(lambda: exec_one(cfg, ops, variant, cont), soft=soft)
+            if 'ok' not in nxt:
+                return nxt
+            n = nxt['ok']
+            c = Counters(acc.get('counters', {}))
+            c.merge(n.get('counters', {}))
+            kh = dict(acc.get('known_hits', {}))
+            for k_, v_ in n.get('known_hits', {}).items():
+                kh[k_] = kh.get(k_, 0) + v_
+            n['counters'] = c
+            n['known_hits'] = kh
+            n['nops'] = acc.get('nops', 0) + n.get('nops', 0)
+            n['digest'] = hashlib.sha256((acc.get('digest', '') + n.get('digest', '')).encode()).hexdigest()[:24]
+            n['state_keys'] = sorted(set(acc.get('state_keys', [])) | set(n.get('state_keys', [])))
+            n['events'] = (acc.get('events', []) + n.get('events', []))[:20]
+            acc = n
+        acc.pop('continuation', None)
+        return {'ok': acc}
 
     out = {'world': args.world, 'hashseed': env['hashseed'], 'mode': args.mode,
            'warm_s': round(warm_s, 2)}
@@ -102,8 +136,7 @@ def main():
     if args.mode == 'replay':
         with open(args.replay) as f:
             rp = json.load(f)
-        res = proc.fork_call(lambda: exec_one(rp['config'], rp['ops'], rp.get('variant')),
-                             soft=soft)
+        res = chain(rp['config'], rp['ops'], rp.get('variant'))
         out['replay'] = res
         proto.write(json.dumps(out, default=str))
         proto.close()
@@ -141,12 +174,24 @@ def main():
                 if x.get('violation') and variant:
                     break
             return res
+        if use_fork and len(rs) == 1:
+            r = rs[0]
+            cfg, ops = gen(r)
+            one = chain(cfg, ops, variant)
+            if 'ok' not in one:
+                return one
+            x = one['ok']
+            x['run'] = r
+            if x.get('violation') or (r - a) < 2:
+                x['cfg'] = cfg
+                x['ops'] = ops
+            return {'ok': [x]}
         if use_fork:
             return proc.fork_call(fn, soft=soft * max(1, min(len(rs), 4)))
         return proc.local_call(fn, soft=soft * max(1, min(len(rs), 4)))
 
     def same_violation(cfg, ops, sig, variant):
-        res = proc.fork_call(lambda: exec_one(cfg, ops, variant), soft=soft)
+        res = chain(cfg, ops, variant)
         if 'ok' not in res:
             return False, res
         v = res['ok'].get('violation')
@@ -215,7 +260,7 @@ def main():
                     ops, lambda cand: same_violation(cfg, cand, sig, None)[0],
                     getattr(mod, 'shrink_op', None),
                     max_tests=tcfg.get('min_tests', 120))
-            fin = proc.fork_call(lambda: exec_one(cfg, min_ops, None), soft=soft)
+            fin = chain(cfg, min_ops, None)
             fv = fin.get('ok', {}).get('violation') or v
             final_sig = fv.get('final_sig') or fv.get('sig')
             rec.update({'final_sig': final_sig, 'min_len': len(min_ops),
